@@ -51,6 +51,31 @@ fn build(l: &Logical, h: u32, asyncm: bool, rng: &mut Rng) -> Result<Vec<u8>, St
             arch = if h == 5 || asyncm { Arch::open_async(b) } else { Arch::open_sync(b) }.map_err(e)?;
             ids = ids[split..].to_vec();
         }
+        8 => {
+            // thousands of extra high-entropy tiles force leaf directories in the intermediate save; after the
+            // removals the archive is small again and must not remember that
+            for id in &ids {
+                arch.add(*id, l.tiles[id].as_ref().clone()).map_err(e)?;
+            }
+            let last = ids.last().copied().unwrap_or(0);
+            let mut extras: Vec<u64> = Vec::new();
+            let mut x = last + 10;
+            for k in 0..9000u64 {
+                extras.push(x);
+                let mut c = rng.bytes(rng.clone().usize(3, 40));
+                c[0] = k as u8;
+                arch.add(x, c).map_err(e)?;
+                x += 1 + rng.log_range(1, 1 << 18);
+            }
+            arch.apply_settings(l);
+            arch.set_codec(R::CODECS[rng.usize(0, 3)]);
+            let b = arch.save().map_err(e)?;
+            arch = if asyncm { Arch::open_async(b) } else { Arch::open_sync(b) }.map_err(e)?;
+            for x in &extras {
+                arch.remove(*x);
+            }
+            ids.clear();
+        }
         6 | 7 => {
             // a superset is saved and reopened; the extra tiles (unique contents, ids interleaved with and
             // beyond the archive's) are then dropped by removals only (6) or by a range-filtered open (7)
@@ -156,12 +181,17 @@ pub fn run(ctx: &mut Ctx) {
             "save+async-reopen midway",
             "superset saved, reopened, extras removed",
             "superset saved, range-filtered open",
+            "leaf-spilling superset saved, reopened, shrunk by removals",
         ];
         let mut outs: Vec<(String, Vec<u8>)> = Vec::new();
         let mut failed = false;
-        for h in 0..8u32 {
+        for h in 0..9u32 {
             for asyncm in [false, true] {
                 if asyncm && !(h == 0 || h == 2 || h == 4 || h == 6) {
+                    continue;
+                }
+                // the bulky history only for archives that are small themselves, on every 4th case
+                if h == 8 && (i % 4 != 1 || l.tiles.len() > 3000) {
                     continue;
                 }
                 if h >= 6 && l.tiles.is_empty() {
